@@ -227,6 +227,19 @@ updater:
 		}
 		r.Count("concurrent_snapshots_saved_and_restored", 1)
 	}
+	if id.Seed%2 == 1 {
+		nrec := 0
+		for _, rr := range recs {
+			nrec += len(rr)
+		}
+		var ex map[string]any
+		if len(recs[0]) > 0 {
+			rec := recs[0][len(recs[0])/2]
+			ex = map[string]any{"query": rec.q.String(), "entries_applied_before_call": rec.lo, "entries_possibly_applied_at_return": rec.hi, "answer": render(rec.got, rec.err)}
+		}
+		r.Sample(map[string]any{"layer": 3, "case_seed": id.Seed, "key_pool": g.pool, "entries_applied": applied, "concurrent_lookups": nrec,
+			"snapshots_saved_concurrently": len(saved), "in_place_recoveries": inPlace, "example_lookup": ex})
+	}
 	r.Count("concurrent_updates", int64(applied))
 	r.Count("concurrent_inplace_recoveries", int64(inPlace))
 	r.Eval(1)
